@@ -5,6 +5,10 @@
   rename   : every local variable of every function renamed consistently (params, globals, attributes kept)
   unparse  : every module re-emitted by ast.unparse (layout, quotes, parentheses, comments all change)
   logging  : a print() inserted at the top of every function body
+  extractvar : first argument of calls hoisted into a fresh local wherever that keeps evaluation order
+  swap       : adjacent independent call-free assignments swapped
+  flattenelse: `else` removed after a branch that always leaves (return / raise / continue / break)
+  inlinevar  : single-use call-free locals inlined into the next statement
 
 Usage: neutral_variants.py [rename|unparse|logging ...] [-k Cxx]"""
 import ast, os, shutil, subprocess, sys, tempfile, builtins, concurrent.futures as cf
@@ -94,6 +98,129 @@ def add_logging(tree):
     return tree
 
 
+# ------------------------------------------------------------------------------------------------------------
+# small refactorings applied wherever their side conditions hold (each is behaviour-preserving on its own)
+PURE = {"len", "int", "float", "str", "tuple", "list", "range", "abs", "np.array", "np.prod", "np.arange",
+        "np.asarray", "os.path.join", "os.path.basename", "os.path.split", "np.unique", "np.argsort"}
+
+
+def _call_free(e):
+    return not any(isinstance(x, (ast.Call, ast.Await, ast.Yield, ast.YieldFrom, ast.NamedExpr, ast.Lambda,
+                                  ast.ListComp, ast.SetComp, ast.DictComp, ast.GeneratorExp)) for x in ast.walk(e))
+
+
+def _blocks(fn):
+    for x in ast.walk(fn):
+        for fld in ("body", "orelse", "finalbody"):
+            b = getattr(x, fld, None)
+            if isinstance(b, list) and b and isinstance(b[0], ast.stmt):
+                yield b
+        if isinstance(x, ast.ExceptHandler):
+            yield x.body
+
+
+def extract_vars(tree):
+    """Extract Variable: `t = f(E, ...)` / `f(E, ...)` / `return f(E, ...)` with E a call-free compound expression
+    -> `_xvN = E; ... f(_xvN, ...)`.  f is a plain name or dotted name (looking it up has no effect), E is the first
+    positional argument, so E is the first thing the statement evaluates."""
+    k = [0]
+    for fn in [n for n in ast.walk(tree) if isinstance(n, ast.FunctionDef)]:
+        for blk in _blocks(fn):
+            i = 0
+            while i < len(blk):
+                st = blk[i]
+                v = getattr(st, "value", None)
+                if isinstance(st, (ast.Assign, ast.Expr, ast.Return)) and isinstance(v, ast.Call) and v.args \
+                        and not isinstance(v.args[0], ast.Starred):
+                    f = v.func
+                    dotted = True
+                    while isinstance(f, ast.Attribute):
+                        f = f.value
+                    dotted = isinstance(f, ast.Name)
+                    a = v.args[0]
+                    if dotted and _call_free(a) and isinstance(a, (ast.BinOp, ast.Subscript, ast.Attribute, ast.Compare)) \
+                            and not (isinstance(st, ast.Assign) and not all(isinstance(t, ast.Name) for t in st.targets)):
+                        k[0] += 1
+                        nm = f"_xv{k[0]}"
+                        blk.insert(i, ast.Assign(targets=[ast.Name(id=nm, ctx=ast.Store())], value=a, lineno=st.lineno))
+                        v.args[0] = ast.Name(id=nm, ctx=ast.Load())
+                        i += 1
+                i += 1
+    return tree
+
+
+def _names(n, ctxs):
+    return {x.id for x in ast.walk(n) if isinstance(x, ast.Name) and isinstance(x.ctx, ctxs)}
+
+
+def swap_statements(tree):
+    """swap adjacent independent assignments `a = E1; b = E2` (plain names, call-free values, neither reads or
+    writes what the other writes)"""
+    for fn in [n for n in ast.walk(tree) if isinstance(n, ast.FunctionDef)]:
+        for blk in _blocks(fn):
+            i = 0
+            while i + 1 < len(blk):
+                a, b = blk[i], blk[i + 1]
+                ok = all(isinstance(s, ast.Assign) and len(s.targets) == 1 and isinstance(s.targets[0], ast.Name)
+                         and _call_free(s.value) for s in (a, b))
+                if ok:
+                    wa, wb = {a.targets[0].id}, {b.targets[0].id}
+                    ra, rb = _names(a.value, ast.Load), _names(b.value, ast.Load)
+                    if not (wa & (rb | wb)) and not (wb & ra):
+                        blk[i], blk[i + 1] = b, a
+                        i += 2
+                        continue
+                i += 1
+    return tree
+
+
+def flatten_else(tree):
+    """`if c: ...; return/raise/continue/break  else: REST`  ->  `if c: ...; return ...` followed by REST"""
+    for fn in [n for n in ast.walk(tree) if isinstance(n, ast.FunctionDef)]:
+        changed = True
+        while changed:
+            changed = False
+            for blk in _blocks(fn):
+                for i, st in enumerate(blk):
+                    if isinstance(st, ast.If) and st.orelse and isinstance(st.body[-1], (ast.Return, ast.Raise, ast.Continue, ast.Break)) \
+                            and not (len(st.orelse) == 1 and isinstance(st.orelse[0], ast.If)):
+                        rest = st.orelse
+                        st.orelse = []
+                        blk[i + 1:i + 1] = rest
+                        changed = True
+                        break
+                if changed:
+                    break
+    return tree
+
+
+def inline_vars(tree):
+    """Inline Variable: `v = E` immediately followed by a simple statement that reads v exactly once as the first
+    thing it evaluates, v read nowhere else, E call-free"""
+    for fn in [n for n in ast.walk(tree) if isinstance(n, ast.FunctionDef)]:
+        for blk in _blocks(fn):
+            i = 0
+            while i + 1 < len(blk):
+                a, b = blk[i], blk[i + 1]
+                if isinstance(a, ast.Assign) and len(a.targets) == 1 and isinstance(a.targets[0], ast.Name) \
+                        and _call_free(a.value) and isinstance(b, (ast.Assign, ast.Expr, ast.Return)):
+                    v = a.targets[0].id
+                    uses_fn = sum(1 for x in ast.walk(fn) if isinstance(x, ast.Name) and x.id == v)
+                    uses_b = [x for x in ast.walk(b) if isinstance(x, ast.Name) and x.id == v and isinstance(x.ctx, ast.Load)]
+                    bv = getattr(b, "value", None)
+                    if uses_fn == 2 and len(uses_b) == 1 and isinstance(bv, ast.Call) and bv.args and bv.args[0] is uses_b[0] \
+                            and not isinstance(bv.func, ast.Call):
+                        f = bv.func
+                        while isinstance(f, ast.Attribute):
+                            f = f.value
+                        if isinstance(f, ast.Name) and f.id != v:
+                            bv.args[0] = a.value
+                            del blk[i]
+                            continue
+                i += 1
+    return tree
+
+
 def build(kind, dst):
     shutil.copytree("/repo/amr_kitchen", os.path.join(dst, "amr_kitchen"), ignore=shutil.ignore_patterns("__pycache__"))
     for dp, dn, fn in os.walk(os.path.join(dst, "amr_kitchen")):
@@ -106,6 +233,14 @@ def build(kind, dst):
                 tree = rename_module(tree)
             elif kind == "logging":
                 tree = add_logging(tree)
+            elif kind == "extractvar":
+                tree = extract_vars(tree)
+            elif kind == "swap":
+                tree = swap_statements(tree)
+            elif kind == "flattenelse":
+                tree = flatten_else(tree)
+            elif kind == "inlinevar":
+                tree = inline_vars(tree)
             ast.fix_missing_locations(tree)
             src = ast.unparse(tree)
             compile(src, p, "exec")
@@ -142,6 +277,6 @@ if __name__ == "__main__":
     if "-k" in sys.argv:
         props = [sys.argv[sys.argv.index("-k") + 1]]
         args = [a for a in args if a not in props]
-    kinds = args or ["unparse", "logging", "rename"]
+    kinds = args or ["unparse", "logging", "rename", "extractvar", "swap", "flattenelse", "inlinevar"]
     tot = sum(run(k, props) for k in kinds)
     sys.exit(1 if tot else 0)
